@@ -15,6 +15,7 @@ import (
 	"os/exec"
 	"path/filepath"
 	"sort"
+	"strconv"
 	"strings"
 	"sync"
 )
@@ -68,7 +69,11 @@ func runMutants(id, repo string, baseline []string) (tried, killed, skipped int,
 	ms := props[id].Mutants
 	blJSON, _ := json.Marshal(baseline)
 	exe, _ := os.Executable()
-	sem := make(chan struct{}, 8)
+	par := 8
+	if n, err := strconv.Atoi(os.Getenv("ORASCHECK_PAR")); err == nil && n > 0 {
+		par = n
+	}
+	sem := make(chan struct{}, par)
 	var mu sync.Mutex
 	var wg sync.WaitGroup
 	for _, m := range ms {
